@@ -385,6 +385,37 @@ impl<'a> Gen<'a> {
             let k = self.rng.range(1, 3);
             (0..k).map(|_| self.other_name("")).collect()
         };
+        // an invariant group that contains a separator and ends in the middle of a component, followed
+        // by variant text in that component: `{a/b}c*`, `<a/b:1>?`, `{a/b,a/b}*` (where the
+        // invariant prefix ends is not where the group ends)
+        if target.len() >= 2 && self.rng.chance(7, 100) {
+            let k = self.rng.range(1, target.len() - 1);
+            let head: Vec<String> = target[..k].iter().map(|n| esc(n)).collect();
+            let name_k: Vec<char> = target[k].chars().collect();
+            let cut = self.rng.range(1, name_k.len());
+            let pre: String = name_k[..cut].iter().collect();
+            let inner = format!("{}/{}", head.join("/"), esc(&pre));
+            let group = match self.rng.below(4) {
+                0 => format!("{{{}}}", inner),
+                1 => format!("<{}:1>", inner),
+                2 => format!("{{{},{}}}", inner, inner),
+                _ => format!("<{}:1,1>", inner),
+            };
+            let tail_same = match self.rng.below(3) {
+                0 => "*".to_string(),
+                1 if cut < name_k.len() => format!("?{}", if cut + 1 < name_k.len() { "*" } else { "" }),
+                _ => "*".to_string(),
+            };
+            let mut rest: Vec<String> = target[k + 1..].iter().map(|n| self.component(n)).collect();
+            if self.rng.chance(1, 3) {
+                rest.push("**".to_string());
+            }
+            let mut expr = format!("{}{}", group, tail_same);
+            if !rest.is_empty() {
+                expr = format!("{}/{}", expr, rest.join("/"));
+            }
+            return expr;
+        }
         let mut comps: Vec<String> = target.iter().map(|n| self.component(n)).collect();
         // literal prefix bias: keep the first k components literal
         if self.rng.chance(35, 100) {
